@@ -388,8 +388,43 @@ pub fn inputs_c19(r: &mut Rng, n: usize, _tier: &str, out: &mut dyn Write) {
                 }
                 writeln!(out, "fmt_parse {}", hexfmt(&f)).unwrap();
             }
+            // ---- parse back of formats that LOOK like a well-known layout with fields of equal width exchanged (the ISO 8601 /
+            // RFC 3339 skeletons with month<->day or hour/minute/second permuted, the date-only and ordinal forms): a parser
+            // that recognises the layout instead of following the format reads another instant (seeded change C19-10: a
+            // from_gregorian_str fast path for formats starting with `%Y-`)
+            26 | 27 => {
+                let skel = *r.pick(&["%Y-%m-%dT%H:%M:%S.%f", "%Y-%m-%dT%H:%M:%S.%f %T", "%Y-%m-%d %H:%M:%S.%f", "%Y-%m-%dT%H:%M:%S", "%Y-%m-%dT%H:%M:%S%z",
+                    "%Y-%m-%dT%H:%M:%S.%f%z", "%Y-%m-%d %H:%M:%S", "%Y-%m-%dT%H:%M:%S.%f UTC"]);
+                let mut two = vec!['m', 'd', 'H', 'M', 'S'];
+                match r.below(4) {
+                    0 => two.swap(0, 1),
+                    1 => { let (i, j) = (2 + r.below(3) as usize, 2 + r.below(3) as usize); two.swap(i, j) }
+                    2 => { two.swap(0, 1); two.swap(2, 4) }
+                    _ => shuffle(r, &mut two),
+                }
+                let mut f = String::new();
+                let mut k = 0;
+                let cs: Vec<char> = skel.chars().collect();
+                let mut i = 0;
+                while i < cs.len() {
+                    if cs[i] == '%' && i + 1 < cs.len() && "mdHMS".contains(cs[i + 1]) {
+                        f.push('%');
+                        f.push(two[k]);
+                        k += 1;
+                        i += 2;
+                    } else {
+                        f.push(cs[i]);
+                        i += 1;
+                    }
+                }
+                if f.contains("%z") {
+                    writeln!(out, "fmt_back {} {} {}", hexfmt(&f), epoch_c19(r, TimeScale::UTC, true), dstr(pick_offset(r))).unwrap();
+                } else {
+                    writeln!(out, "fmt_back {} {}", hexfmt(&f), epoch_c19(r, TimeScale::UTC, false)).unwrap();
+                }
+            }
             // ---- parse back (UTC epochs; a few in other scales, where only "no panic" is judged)
-            26..=37 => {
+            28..=37 => {
                 // (one format in eight also carries `%w`, `%y` or `%J`: outside the parse-back clause, tied to the model)
                 let unnamed = r.chance(1, 8);
                 let toks = full_tokens_x(r, unnamed);
@@ -790,6 +825,23 @@ fn boundary_block_c13f(out: &mut dyn Write) {
     };
     for f in ["", "%", "%%", "%Y", "%Y%", "%q", "%é", "é", "%Y-%m-%d", "%Y?", "%Y??", "%?", "% Y", "%Yabc%m", "%w", "%y", "%J"] {
         writeln!(out, "p_format {}", hexfmt(f)).unwrap();
+    }
+    // full capacity: sixteen tokens (every slot of the item array used), each supported token in the LAST slot, the text
+    // parsing through all sixteen fields and then ending, or going on with a blank, a letter, a digit, a sign, `Z`, a
+    // multi-byte character, or a digit INSIDE the last field (seeded changes C13-3, C13-7, C13-8: look-aheads and sentinel
+    // slots past the last item)
+    for (tok, text) in [("%Y", "2017"), ("%m", "01"), ("%d", "14"), ("%H", "11"), ("%M", "22"), ("%S", "33"), ("%f", "123456789"), ("%j", "014"),
+        ("%A", "Saturday"), ("%a", "Sat"), ("%B", "January"), ("%b", "Jan"), ("%T", "UTC"), ("%z", "+00:00")] {
+        for sep in [" ", ""] {
+            let f = format!("{}{}", format!("%d{}", if sep.is_empty() { " " } else { sep }).repeat(15), tok);
+            let base = format!("{}{}", "14 ".repeat(15), text);
+            for tail in ["", " ", "x", "7", "2017", "-", "Z", "\u{e9}", " 7"] {
+                let tail = if tail == "\u{e9}" { "\u{e9}".replace("\u{e9}", "é") } else { tail.to_string() };
+                lit(out, &f, &format!("{}{}", base, tail));
+            }
+            let mid = text.len() / 2;
+            lit(out, &f, &format!("{}{}7{}", "14 ".repeat(15), &text[..mid], &text[mid..]));
+        }
     }
     lit(out, "%Y-%m-%d", "2015-02-07");
     lit(out, "%Y-%m-%d", "");
